@@ -250,6 +250,20 @@ def check(run):
     for ob, ok, msg in e3.run_unit(run, r4, rebind_unit()):
         if not ok:
             run.violation(r4, ob["key"], "%s: %s" % (ob["desc"], msg), "include/yorel/yomm2/policies/core.hpp")
+    cu = e3.Unit("c14_convert", witness.PRELUDE + """
+namespace c14c { using namespace yw; struct PA : policy::release::rebind<PA> {}; struct PB : policy::release::rebind<PB> {}; struct U { virtual ~U() {} }; }
+using namespace c14c;
+""")
+    cu.add("convert|other-policy", "a virtual_ptr of one policy is not convertible to a virtual_ptr of another policy (same-named methods of two policies stay distinct overloads)",
+           "static_assert(!std::is_convertible_v<virtual_ptr<B, PA>, virtual_ptr<A, PB>> && !std::is_convertible_v<virtual_ptr<A, PA>, virtual_ptr<A, PB>> && !std::is_convertible_v<virtual_ptr<std::shared_ptr<B>, PA>, virtual_ptr<std::shared_ptr<A>, PB>>);")
+    cu.add("convert|same-policy", "within a policy a virtual_ptr to a derived class still converts to a virtual_ptr to its base",
+           "static_assert(std::is_convertible_v<virtual_ptr<B, PA>, virtual_ptr<A, PA>> && std::is_convertible_v<virtual_ptr<std::shared_ptr<B>, PA>, virtual_ptr<std::shared_ptr<A>, PA>>);")
+    cu.add("convert|object", "a virtual_ptr is still constructible from an object of its class or of a derived class",
+           "static_assert(std::is_constructible_v<virtual_ptr<A, PA>, B&> && std::is_constructible_v<virtual_ptr<A, PA>, A&> && std::is_constructible_v<virtual_ptr<std::shared_ptr<A>, PA>, std::shared_ptr<B>>);")
+    run.rule("C14-convert", "virtual_ptrs convert within their policy only: declaring a method in one policy cannot make calls or definitions of another policy ambiguous", floor=3)
+    for ob, ok, msg in e3.run_unit(run, "C14-convert", cu):
+        if not ok:
+            run.violation("C14-convert", ob["key"], "%s: %s" % (ob["desc"], msg), "include/yorel/yomm2/core.hpp")
     run.rule("C14-default", "with a configured YOMM2_DEFAULT_POLICY, every API given no policy (class lists, methods, macros, virtual_ptr, final, update) uses that one policy", floor=8)
     for ob, ok, msg in e3.run_unit(run, "C14-default", default_unit()):
         if not ok:
